@@ -8,3 +8,21 @@ CLAIMS["C10"] = (
     "where DFA-level constructs (yield proxies, tokenizer loops) place their yields.",
     "Trusted: the line classifier of nmfulint/cevents.py (unknown lines touching tracked names abort the analysis); the paper argument from "
     "the row table to the statement; DFA-level facts (which transitions exist) are assumptions, listed in evidence.")
+CLAIMS["C02"] = (
+    "emission-path enumeration of the C templates + ordering/typestate rules (state store, advance, reload)",
+    "Static, generator-level: chunk resumption lives only in the emitted C. On every emission path of the transition body the state store "
+    "precedes actions and returns; a consuming in-call continuation has exactly one advance, compare-with-end -> OK, reload of `inval` through "
+    "the advanced pointer, then the jump (so one-byte-per-call and one-call feeds see the same byte); early/late advance are complementary; "
+    "no template declares a local other than `inval` or static/file-scope storage; the three users of may_return_early agree. Decides the "
+    "per-transition mechanism for all programs and options; does not decide DFA-level proxy-state construction for yields.",
+    "Trusted: line classifier (unknown tracked lines abort); that a DFA state plus the output variables is the whole parser state (true by "
+    "construction of the struct). Not decided: InterruptableActionNode's proxy states.")
+CLAIMS["C03"] = (
+    "emission-path enumeration + capacity/typestate rules over buffer templates, linear-term evaluation of size expressions",
+    "Static, generator-level: every buffer read/write in generated parsers is one of a dozen templates. Decided for every valuation of the "
+    "generator's atoms: capacity test dominates the byte write (else-arm, [counter++], bound = usable size), terminator iff terminated, "
+    "constant copies refused when too long with one length measure for check/memcpy/counter, latin-1 only, on-demand pointers never "
+    "dereferenced while possibly NULL nor after free, free()+NULL pairing and coverage, malloc sizes, bounds-checked index template, raw "
+    "byte view takes the address, counter/state widths. Found and repaired F-01, F-02, F-05, F-06 (see KNOWN_FINDINGS.json).",
+    "Trusted: line classifier; flag implication ON_DEMAND => DYNAMIC (checked under C19/C11). Not decided: UB inside user arithmetic, "
+    "input-chunk reads beyond the pointer protocol (C10).")
